@@ -104,20 +104,20 @@ PROPS = {
     },
     "C16": {
         "title": "Timestep units rescale every time-dependent quantity consistently",
-        "lean": ["TopsimProps.C16", "TopsimProofs.Bridge.Config"],
+        "lean": ["TopsimProps.C16", "TopsimProofs.Bridge.Config", "TopsimProps.C18RealTime"],
         "streams": [("units", 10, 150)],
         "direct": ["c16"],
         "monitor": ["C16"],
     },
     "C17": {
         "title": "Plan-following scheduling keeps every task on its planned machine",
-        "lean": ["TopsimProps.C17", "TopsimProps.C17Traj"],
+        "lean": ["TopsimProps.C17", "TopsimProps.C17Traj", "TopsimProps.C17Waits"],
         "streams": [("dynamic", 40, 600), ("chaotic-dynamic", 12, 200), ("big", 6, 80), ("dynamic-reuse", 12, 200), ("joinrace", 16, 200)],
         "monitor": ["C17"],
     },
     "C18": {
         "title": "Moving an observation between buffer tiers conserves data",
-        "lean": ["TopsimProps.C18", "TopsimProofs.Bridge.BufferArith", "TopsimProofs.Bridge.TierArith", "TopsimProofs.Bridge.Admission", "TopsimProps.C07Traj"],
+        "lean": ["TopsimProps.C18", "TopsimProofs.Bridge.BufferArith", "TopsimProofs.Bridge.TierArith", "TopsimProofs.Bridge.Admission", "TopsimProps.C07Traj", "TopsimProps.C18RealTime"],
         "streams": [("tiering", 10, 150), ("tierback", 10, 150)],
         "direct": ["c18"],
         "monitor": ["C18"],
